@@ -522,6 +522,8 @@ fn main() {
     let mut rng = Rng::new(a.num("--seed", 1));
     let (mut replayed, mut fast, mut slow, mut drift, mut panics) = (0u64, 0u64, 0u64, 0u64, 0u64);
     let sample_every = a.num("--sample-every", 200);
+    let max_slow = a.num("--max-slow", 4000);
+    let mut skipped_slow = 0u64;
     let mut drift_samples: Vec<Value> = Vec::new();
 
     // ---- scenario composer: scripts for spec/LcScripted.tla (one ndjson line per stream), nothing is executed
@@ -566,6 +568,9 @@ fn main() {
             }
             if same && contract_ok && (replayed % sample_every != 0) {
                 fast += 1;
+            } else if slow >= max_slow {
+                // a tree that deviates massively: enough full traces have been recorded for TLC to judge, the rest is only counted
+                skipped_slow += 1;
             } else {
                 slow += 1;
                 let hdr = if clean { json!({"kind":"clean","src":"tlc-clean","prepop":false,"boots":scn["boots"]}) } else { json!({"kind":"stream","src":"tlc","prepop":false,"boots":[]}) };
@@ -723,6 +728,7 @@ fn main() {
     t.flush();
     let mut stats: BTreeMap<&str, Value> = BTreeMap::new();
     stats.insert("cases_traced", json!(case));
+    stats.insert("slow_path_not_recorded", json!(skipped_slow));
     stats.insert("lines", json!(t.lines));
     stats.insert("replayed", json!(replayed));
     stats.insert("fast_path", json!(fast));
